@@ -615,7 +615,8 @@ impl Injection for Base<Float, Integer> {
     ) -> Result<<Self::CoDomain as Variant>::Element> {
         self.value_map_option(
             |arg| {
-                if (*arg as i64) as f64 == *arg {
+                // 2^63 saturates to i64::MAX, which converts back to 2^63
+                if (*arg as i64) as f64 == *arg && *arg < 9223372036854775808.0 {
                     Some(*arg as i64)
                 } else {
                     None
